@@ -288,6 +288,72 @@ def include_history(ctx):
     return n
 
 
+def cross_converter(ctx):
+    """Two converters of different configuration in ONE fresh interpreter: what B returns after A has converted documents must be
+    what B returns in an interpreter of its own (state shared between converters: module-level caches keyed too coarsely)."""
+    import subprocess, os, sys, json
+    kinds = [configs.C("core"), configs.C("all", plugins=configs.PLUGINS), configs.C("fenced", plugins=["table", "def_list"], directives="fenced"),
+             configs.C("fenced-colon", plugins=["def_list"], directives="fenced-colon"), configs.C("fenced-pct", directives="fenced-pct"), configs.C("rst", plugins=["footnotes"], directives="rst"),
+             configs.C("spoiler-abbr", plugins=["spoiler", "abbr", "def_list", "task_lists"]), configs.C("ast-all", renderer="ast", plugins=configs.PLUGINS),
+             # rule lists of quotes and list items that differ from each other (the "…_in_list" / "…_in_quote" plugins)
+             configs.C("table-in-list", plugins=["table", "mistune.plugins.table.table_in_list", "math", "mistune.plugins.math.math_in_quote"]),
+             configs.C("table-in-quote", plugins=["table", "mistune.plugins.table.table_in_quote", "math", "mistune.plugins.math.math_in_list"])]
+    probes = ["- a\n- b\n", "1. a\n2. b\n", "* a\n\n  b\n", "- item\n:::{note} t\ntext\n:::\n", "- item\n%%%{note} T\nbody\n%%%\n", "1. item\n::::{tip}\n::::\n", "- item\n```{note}\nx\n```\n",
+              "- item\n:::{note}\n[foo]: /in-note\n:::\n\n[foo]\n\n[foo]: /later\n", "- item\n.. note:: t\n", "> q\n:::{note}\n:::\n", "> q\n>! s\n- l\n", "term\n: def\n- l\n: d2\n",
+              "| a |\n|---|\n| b |\n- l\n| c |\n", "*[A]: t\n\nA - l\n", "- [ ] t\n- x\n", "# h\n\n.. toc::\n", "> > > > > > q\n\n- - - - - - | a |\n            |---|\n", "[x]: /u\n\n[x] [^n]\n\n[^n]: f\n",
+              "> > > > > > q\n", "- - - - - - l\n", "- - - - - | a |\n          |---|\n          | b |\n", "> > > > > | a |\n> > > > > |---|\n> > > > > | b |\n", "> > > > > $$\n> > > > > m\n> > > > > $$\n",
+              "- - - - - $$\n          m\n          $$\n", "- | a |\n  |---|\n  | b |\n", "> | a |\n> |---|\n> | b |\n"]
+    jobs = [(a, b) for a in kinds for b in kinds if a["name"] != b["name"]]
+    if ctx.quick():
+        ctx.rng.shuffle(jobs)
+        keep = [j for j in jobs if "fenced" in j[0]["name"] and "fenced" in j[1]["name"]]
+        jobs = keep + [j for j in jobs if j not in keep][:14]
+    here = os.path.dirname(os.path.dirname(os.path.abspath(__file__)))
+    def launch(steps):
+        pr = subprocess.Popen([sys.executable, "-B", os.path.join(here, "seqworker.py")], stdin=subprocess.PIPE, stdout=subprocess.PIPE, stderr=subprocess.PIPE, text=True)
+        return pr, json.dumps({"steps": steps, "src": common.repo_src()})
+    alone = {}
+    for b in kinds:
+        alone[b["name"]] = launch([[b, d] for d in probes])
+    # … and within ONE converter: the same probes in two different orders must agree document by document
+    rev = list(reversed(probes))
+    orders = {b["name"]: launch([[b, d] for d in rev]) for b in kinds}
+    alone_res = {}
+    for nm, (pr, payload) in alone.items():
+        try:
+            alone_res[nm] = json.loads(pr.communicate(payload, timeout=300)[0])
+        except Exception:
+            alone_res[nm] = None
+    n = 0
+    for nm, (pr, payload) in orders.items():
+        try:
+            res = list(reversed(json.loads(pr.communicate(payload, timeout=300)[0])))
+        except Exception:
+            continue
+        for d, r, r0 in zip(probes, res, alone_res.get(nm) or []):
+            n += 1
+            if r != r0:
+                ctx.fail("history:order-of-documents", "converter %s converts %r differently depending on which of the other probe documents it converted before" % (nm, d),
+                         {"kind": "cross-converter", "config": [k for k in kinds if k["name"] == nm][0], "doc": d, "probes": probes})
+                break
+    procs = [(a, b, launch([[a, d] for d in probes] + [[b, d] for d in probes])) for a, b in jobs]
+    for a, b, (pr, payload) in procs:
+        try:
+            res = json.loads(pr.communicate(payload, timeout=300)[0])
+        except Exception:
+            continue
+        ref = alone_res.get(b["name"])
+        if ref is None:
+            continue
+        for d, r, r0 in zip(probes, res[len(probes):], ref):
+            n += 1
+            if r != r0:
+                ctx.fail("history:other-converter", "converter %s converts %r differently after converter %s was used in the same interpreter (%s vs %s alone)" % (b["name"], d, a["name"], r.get("exc") or r.get("hash"), r0.get("exc") or r0.get("hash")),
+                         {"kind": "cross-converter", "first": a, "config": b, "doc": d, "probes": probes})
+                break
+    return n
+
+
 def thread_oracle(ctx, docs, rounds):
     import mistune
     n = 0
@@ -354,6 +420,7 @@ def run(ctx):
     nh = history_oracle(ctx, hs)
     nt = thread_oracle(ctx, docs, 2 if q else 12)
     nh += include_history(ctx)
+    nh += cross_converter(ctx)
     if ctx.broken and not ctx.failures:
         ctx.notes.append("search mode entered")
         nh += history_oracle(ctx, histories(ctx, 3000))
